@@ -26,6 +26,7 @@ def step (line : String) : String :=
   | "show" :: args => runShow args
   | "expand" :: args => runExpand args
   | "urlhelpers" :: args => runUrlHelpers args
+  | "pathnorm" :: args => runPathNorm args
   | _ => "bad-op"
 
 partial def loop (h : IO.FS.Stream) (out : IO.FS.Stream) : IO Unit := do
